@@ -99,13 +99,36 @@ def lock_free(info):
         os.close(fd)
 
 
-def child_main(script, k, sig, wfd):
+class NotificationFault(OSError):
+    pass
+
+
+def install_notification_fault(fault, calls):
+    """The notification channel of a job (progress / end-of-job reports to listening servers, files of .notifications) is outside the
+    job: the `fault`-th call that TaskRunner makes into experimaestro.notifications raises (fault == 0: calls are only counted).
+    Every function of that module that run.py has bound in its own namespace is wrapped."""
+    import functools
+    import experimaestro.run as R
+    for name, fn in list(vars(R).items()):
+        if callable(fn) and getattr(fn, "__module__", None) == "experimaestro.notifications" and not isinstance(fn, type):
+            def wrapper(*a, _fn=fn, _name=name, **kw):
+                calls.append(_name)
+                if len(calls) == fault:
+                    raise NotificationFault(f"notification channel unavailable ({_name})")
+                return _fn(*a, **kw)
+            setattr(R, name, functools.wraps(fn)(wrapper))
+
+
+def child_main(script, k, sig, wfd, fault=None):
     """Runs in the forked child: the job script under the tracer.  Reports the traced events through wfd when k == 0."""
     import atexit
     import runpy
     count = [0]
     events = []
     delivered = [None]
+    ncalls = []
+    if fault is not None:
+        install_notification_fault(fault, ncalls)
 
     def local(frame, event, arg):
         if event == "line":
@@ -155,7 +178,7 @@ def child_main(script, k, sig, wfd):
         pass
     if k == 0:
         try:
-            os.write(wfd, (json.dumps({"events": events}) + "\n").encode())
+            os.write(wfd, (json.dumps({"events": events, "notification_calls": ncalls}) + "\n").encode())
         except OSError:
             pass
     os._exit(code if isinstance(code, int) else 1)
@@ -170,7 +193,7 @@ def launch(item):
     if pid == 0:
         os.close(r)
         try:
-            child_main(info["script"], item["k"], item["sig"], w)
+            child_main(info["script"], item["k"], item["sig"], w, item.get("fault"))
         finally:
             os._exit(99)
     os.close(w)
